@@ -16,7 +16,6 @@ variable {gs : List QGraph}
 structure ClauseWF (c : Clause) : Prop where
   idAlias : IdAliasPlain c
   alias : AliasWF c
-  noObjAliases : c.oLowerAlias = [] ∧ c.oUpperAlias = []
 
 theorem idAliasPlain_strip {c c' : Clause} (hs : strip c' = strip c) (h : IdAliasPlain c) : IdAliasPlain c' := by
   have e1 : c'.oIDAlias = c.oIDAlias := show (strip c').oIDAlias = (strip c).oIDAlias from congrArg Clause.oIDAlias hs
